@@ -792,6 +792,46 @@ theorem C05_records_roundtrip (sessions : List (List (List Char)))
   obtain ⟨s, hs, hrs⟩ := List.mem_flatten.mp hr
   exact h s hs r hrs
 
+/-- APPEND MODE: a file that is empty or ends in a newline (`Terminated`: what every sequence
+session leaves, by `linesOf_terminated`) keeps its records when a session is appended, gains
+exactly the new records, and is again `Terminated` — so `open_jsonl(p, 'a')` composes. -/
+theorem C05_append_session (c : List Char) (hc : Terminated c) (recs : List (List Char))
+    (h : ∀ r ∈ recs, '\n' ∉ r) :
+    readLines (c ++ linesOf recs) = readLines c ++ recs ∧ Terminated (c ++ linesOf recs) :=
+  ⟨by rw [readLines_append_terminated c _ hc, readLines_linesOf recs h],
+   terminated_append c _ hc (linesOf_terminated recs)⟩
+
+/-- PARTIAL LAST LINE: if the file does not end in a newline (a writer died in the middle of a
+record, or the file was written by `pg.save`), the first appended record is glued to the partial
+line: neither of the two is read back. -/
+theorem C05_partial_line_counterexample :
+    ¬ Terminated "[1, 2".toList ∧
+    readLines ("[1, 2".toList ++ linesOf ["[3]".toList]) = ["[1, 2[3]".toList] := by
+  refine ⟨?_, by decide⟩
+  rintro (h | ⟨c', h⟩)
+  · cases h
+  · have : ("[1, 2".toList).getLast? = (c' ++ ['\n']).getLast? := by rw [h]
+    simp at this
+
+/-- JSONL GLUE: values written with `open_jsonl` — one `to_json_str` text per line — are read back
+as the same values, for any JSON text layer whose output has no raw newline (json.dumps without
+indent escapes them). -/
+theorem C05_jsonl_roundtrip (dumps : JS → List Char) (loads : List Char → Option JS)
+    (hjson : ∀ j, loads (dumps j) = some j) (hnl : ∀ j, '\n' ∉ dumps j)
+    (env : ClassEnv) (hwf : env.WF = true) (ap : Bool) (vs : List Tree)
+    (hv : ∀ t ∈ vs, Conforms env t = true ∧ Encodable true t = true ∧ (ap = true ∨ NoMissing t = true)) :
+    (readLines (linesOf (vs.map (toJsonStr dumps env)))).map (fromJsonStr loads env ap) =
+      vs.map .ok := by
+  rw [readLines_linesOf]
+  · rw [List.map_map]
+    apply List.map_congr_left
+    intro t ht
+    obtain ⟨h1, h2, h3⟩ := hv t ht
+    exact C05_roundtrip_str dumps loads hjson env hwf ap t h1 h2 h3
+  · intro r hr
+    obtain ⟨t, _, rfl⟩ := List.mem_map.mp hr
+    exact hnl _
+
 /-- The same without the newline exclusion … -/
 def C05_records_Full : Prop :=
   ∀ rs : List (List Char), readLines (linesOf rs) = rs
